@@ -84,6 +84,7 @@ def parseOp : List String → Option POp
   | ["echo", vs] => do some (.echo (← parseVals vs))
   | ["poke", t, v] => do some (.poke (← parseVal t) (← parseVal v))
   | ["pokePop", t] => do some (.pokePop (← parseVal t))
+  | ["relayFail", t, tag, cls] => do some (.relayFail (← parseVal t) (← tag.toNat?) (parseCls cls))
   | _ => none
 
 def showOutcome : Outcome → String
